@@ -5,6 +5,7 @@ import (
 	"errors"
 	"fmt"
 	"sort"
+	"strings"
 
 	"verif/sim/core"
 	"verif/sim/refts"
@@ -600,10 +601,11 @@ func (filters) Execute(scAny any, keepLog bool) *core.Outcome {
 					end = groups[gi+1].resAt
 				}
 				if g.pid != 0 && (gi+p.Seed)%3 == 0 {
-					// errors of groups flushed by the end-of-stream drain are logged by the library, not
-					// returned (it keeps draining): such a group delivers nothing
+					// The error of a group flushed by the end-of-stream drain may be returned or only
+					// logged (the property does not say; the drain goes on either way): optional entry.
 					if g.drain {
 						eofDrainErrs++
+						wantSeq = append(wantSeq, "?ERR:parser")
 					} else {
 						wantSeq = append(wantSeq, "ERR:parser")
 					}
@@ -624,6 +626,23 @@ func (filters) Execute(scAny any, keepLog bool) *core.Outcome {
 				case errClass(x.Err) != "ErrNoMorePackets":
 					gotSeq = append(gotSeq, "ERR:"+errClass(x.Err))
 				}
+			}
+			// resolve the optional entries against what was returned
+			{
+				var res []string
+				j := 0
+				for _, w := range wantSeq {
+					if strings.HasPrefix(w, "?") {
+						if j < len(gotSeq) && gotSeq[j] == w[1:] {
+							res = append(res, w[1:])
+							j++
+						}
+						continue
+					}
+					res = append(res, w)
+					j++
+				}
+				wantSeq = res
 			}
 			wantNoDrain := wantSeq
 			if ok, msg := seqEq(wantNoDrain, gotSeq); !ok {
